@@ -503,6 +503,7 @@ def parseCall (toks : List String) : Option Call :=
   | ["shmbuf_new", d, nm, sz, e] => do
     let nm ← n nm; if nm ≥ 6 then none else some (.ctor (.shmbufNew nm (← n sz)) (← n d) (← argOpt e))
   | ["shmbuf_rw", d, e] => do some (.mut .nop .shmbuf (← n d) (← argOpt e))
+  | ["shmbuf_fill", d, e] => do some (.mut .nop .shmbuf (← n d) (← argOpt e))
   | ["shmbuf_own", d] => do some (.mut .shmbufOwn .shmbuf (← n d) none)
   | ["shmbuf_free", d] => do some (.dtor .shmbuf (← n d))
   | ["mutex_new", d] => do some (.ctor (.oneNew .mutex) (← n d) none)
